@@ -177,6 +177,7 @@ Section Ibc.
     | MemoBad => Err s1
     | MemoCall fails v =>
         let from := isender (ip_src p) (ip_sender p) in
+        if v <? 0 then Err s1 else                     (* IbcCallEvmPacket.ValidateBasic: Value.IsNegative() *)
         if negb (has_acct s1 from) then Err s1         (* x/evm CallEVM: GetSequence of an unknown account *)
         else if ibal s1 (from, AFx, 0) <? v then Err s1  (* the EVM refuses a call whose value the caller cannot pay *)
         else
